@@ -238,3 +238,46 @@ Proof.
   destruct (descend_set [E_MAP_ELEMENT k] _ root) as [r' res]. cbn [fst] in F.
   destruct res as [e|[]]; cbn [fst]; rewrite F; exact Hg.
 Qed.
+
+(* ------------------------------------------------------------------ delete shifts, at any depth:
+   after the deletion of element i of a list anywhere in the tree, what was readable below a higher
+   subscript i' of that list is readable, unchanged, below i' - 1 *)
+Lemma delete_at_map_cons k e1 q kv c : lookup k kv = Some c ->
+  delete_at (E_MAP_ELEMENT k :: e1 :: q) (NMap kv) = NMap (update k (delete_at (e1 :: q) c) kv).
+Proof. intros L. change (delete_at (E_MAP_ELEMENT k :: e1 :: q) (NMap kv))
+  with (match lookup k kv with Some c => NMap (update k (delete_at (e1 :: q) c) kv) | None => NMap kv end).
+  now rewrite L. Qed.
+Lemma delete_at_list_cons i e1 q vec al :
+  delete_at (E_LIST_ELEMENT i :: e1 :: q) (NList vec al)
+  = NList (set_nth (Z.to_nat i) (delete_at (e1 :: q) (nth (Z.to_nat i) vec NNull)) vec) al.
+Proof. reflexivity. Qed.
+
+Lemma delete_shift_path : forall p, Forall plain_step p -> forall i i' es' n v,
+  (0 <= i < i')%Z ->
+  descend_get (p ++ E_LIST_ELEMENT i' :: es') n = inr v ->
+  descend_get (p ++ E_LIST_ELEMENT (i' - 1) :: es') (delete_at (p ++ [E_LIST_ELEMENT i]) n) = inr v.
+Proof.
+  induction p as [|e p IH]; intros Hp i i' es' n v Hi Hg.
+  - cbn [app] in *.
+    destruct (get_list_element_inv _ _ _ _ Hg) as (vec & al & c & -> & H0 & N & Hc).
+    cbn [delete_at list_parts].
+    rewrite (get_list_element_intro (i' - 1) es' _ al c); [exact Hc|lia|].
+    rewrite nth_error_remove_nth.
+    replace (Nat.ltb (Z.to_nat (i' - 1)) (Z.to_nat i)) with false by (symmetry; apply Nat.ltb_ge; lia).
+    replace (S (Z.to_nat (i' - 1))) with (Z.to_nat i') by lia. exact N.
+  - inversion Hp as [|? ? He Hp']; subst.
+    rewrite <- !app_comm_cons in *.
+    destruct (p ++ [E_LIST_ELEMENT i]) as [|e1 q] eqn:Eq; [destruct p; discriminate|].
+    destruct e; simpl in He; try contradiction.
+    + cbn [descend_get] in Hg. destruct n as [| | kv | ]; try discriminate.
+      destruct (lookup k kv) as [c|] eqn:L; [|discriminate].
+      rewrite (delete_at_map_cons _ _ _ _ _ L). cbn [descend_get].
+      rewrite (lookup_update_same _ _ _ _ L). rewrite <- Eq. now apply IH.
+    + destruct (get_list_element_inv _ _ _ _ Hg) as (vec & al & c & -> & H0 & N & Hc).
+      rewrite delete_at_list_cons.
+      assert (Hlt : (Z.to_nat i0 < length vec)%nat) by (apply nth_error_Some; congruence).
+      rewrite (nth_nth_error _ _ NNull _ N).
+      rewrite (get_list_element_intro i0 _ _ al (delete_at (e1 :: q) c) H0).
+      * rewrite <- Eq. now apply IH.
+      * now apply nth_error_set_nth.
+Qed.
